@@ -31,12 +31,33 @@ def run(ids):
             r = subprocess.run([os.path.join(VERIF, "tools", "check_seeded.sh"), os.path.join(SEEDED, d, "patch.diff"), p],
                                capture_output=True, text=True, env=dict(os.environ, TIER=os.environ.get("TIER", "quick")))
             dt = round(time.time() - t0)
+            if "PATCH DOES NOT APPLY" in r.stdout:
+                results[p] = {"detected": False, "signatures": [], "seconds": 0, "tier": "-", "note": "patch does not apply to HEAD"}
+                print(d, p, "PATCH DOES NOT APPLY", flush=True)
+                continue
             viol = [l for l in r.stdout.splitlines() if l.startswith("VIOLATION")]
             sigs = sorted({os.path.basename(v.split("replay=")[1]).rsplit("-", 1)[0] for v in viol})
             results[p] = {"detected": bool(viol), "signatures": sigs, "seconds": dt, "tier": os.environ.get("TIER", "quick")}
             print(d, p, "detected" if viol else "MISSED", dt, "s", ",".join(sigs), flush=True)
         m["detected_by"] = results
         json.dump(m, open(mp, "w"), indent=1)
+
+
+def reconfirm(ids):
+    """re-run every demonstration against the current HEAD of /repo (a later fix may have neutralised an old change)"""
+    for d in sorted(os.listdir(SEEDED)):
+        if ids and d not in ids:
+            continue
+        mp = os.path.join(SEEDED, d, "meta.json")
+        if not os.path.exists(mp):
+            continue
+        m = json.load(open(mp))
+        r = subprocess.run([os.path.join(VERIF, "tools", "confirm_demo.sh"), os.path.join(SEEDED, d)], capture_output=True, text=True)
+        last = (r.stdout.strip().splitlines() or [""])[-1]
+        head = subprocess.run(["git", "-C", "/repo", "rev-parse", "--short", "HEAD"], capture_output=True, text=True).stdout.strip()
+        m.setdefault("confirmed", {})["on_head"] = {"head": head, "result": last}
+        json.dump(m, open(mp, "w"), indent=1)
+        print(d, last, flush=True)
 
 
 def table():
@@ -58,5 +79,7 @@ def table():
 if __name__ == "__main__":
     if len(sys.argv) >= 2 and sys.argv[1] == "table":
         table()
+    elif len(sys.argv) >= 2 and sys.argv[1] == "reconfirm":
+        reconfirm(set(sys.argv[2:]))
     else:
         run(set(sys.argv[2:]))
